@@ -20,7 +20,9 @@ def run(ctx):
     per = ctx.scale(120, 600)
     reqs, metas = [], []
     for sim in allsims.SIMS:
-        for k in range(per):
+        # the generic simulators get three times as many cases: their specification space (equal-status source pairs,
+        # status-preserving edges, composite names, …) is much larger than the SIR / SIS argument space
+        for k in range(per * 3 if sim in ("Gillespie_simple_contagion", "Gillespie_complex_contagion") else per):
             c = edge_case(ctx, sim) if k % 4 == 0 else allsims.gen_case(ctx.rng, sim)
             out, G, idx = allsims.run_impl(c, rng=ctx.rng)
             ctx.count("%s:%s" % (sim, "ok" if out["ok"] else "err=" + out["err"]))
